@@ -33,6 +33,11 @@ func fileExists(name string) (bool, error) {
 	if info.IsDir() {
 		return false, fmt.Errorf("log: directory found at %s", name)
 	}
+	if info.Size() == 0 {
+		// left behind by a crash in createSegment, before the file got its size:
+		// it cannot be mapped and holds nothing, treat it as absent
+		return false, nil
+	}
 	return true, nil
 }
 
